@@ -25,7 +25,8 @@ RULE = (
 )
 ASSUMPTIONS = ["fake streams stand in for sockets/stdio: EOF = read returns empty, errors are raised by read()/write()"]
 
-FAULTS = ["eof", "read-error", "eof-in-message", "junk-eof", "handler-exception", "write-error-then-read-error", "eof-of-two-at-once"]
+FAULTS = ["eof", "read-error", "eof-in-message", "junk-eof", "handler-exception", "write-error-then-read-error", "eof-of-two-at-once",
+          "read-error-in-message", "handler-exception-with-more-behind"]
 
 
 class Exploding:
@@ -115,6 +116,15 @@ def run_script(case):
             victim.send_raw("\x00\x01 garbage <<< &&& </x> <getProperties")
             s.settle()
             victim.eof()
+        elif fault == "read-error-in-message":
+            # reset in the middle of a message: the receive buffer is not empty when the connection ends
+            victim.send_raw('<newTextVector device="DEV" name="TXT"><oneText name="A">par')
+            s.settle()
+            victim.read_error()
+        elif fault == "handler-exception-with-more-behind":
+            # the failing message has more traffic behind it in the same read
+            victim.send('<newTextVector device="BOOM" name="X"><oneText name="A">x</oneText></newTextVector>'
+                        '<newTextVector device="DEV" name="TXT"><oneText name="B">behind</oneText></newTextVector><getProp')
         elif fault == "handler-exception":
             victim.send('<newTextVector device="BOOM" name="X"><oneText name="A">x</oneText></newTextVector>')
         elif fault == "write-error-then-read-error":
@@ -130,7 +140,7 @@ def run_script(case):
         elif fault == "eof-of-two-at-once":
             victim.eof()
         s.settle()
-        if fault == "handler-exception" and boom.calls == 0:
+        if fault.startswith("handler-exception") and boom.calls == 0:
             raise Failure("harness:trigger-not-delivered", "the exploding device was never called")
         # ---- the victim is gone -----------------------------------------------------------
         h = victim.handler
